@@ -79,7 +79,8 @@ def exec_text(task, cd):
                 pass
     first = (r['stdout'].splitlines() or [''])[0]
     return dict(exit=r['exit'], exception=r['exception'], ident=first if first in IDENTS else None,
-                stdout=r['stdout'][:200], stderr=r['stderr'][-500:], traceback=r.get('traceback'))
+                stdout=r['stdout'][:200], stderr=r['stderr'][-500:], traceback=r.get('traceback'),
+                name_too_long='File name too long' in r['stderr'])
 
 
 def judge(allowed, o):
@@ -110,7 +111,9 @@ def judge(allowed, o):
 
 
 def known(text, o):
-    if 'a' * 256 in text and o.get('ident') == 'INTERNAL_ERROR' and 'File name too long' in (o.get('stderr') or ''):
+    # D18: a path component of more than 255 characters (whatever it is made of) AND the OS error for it
+    if re.search(r'[^\s/]{256,}', text) and o.get('ident') == 'INTERNAL_ERROR' and \
+            (o.get('name_too_long') or 'File name too long' in (o.get('stderr') or '')):
         return 'D18'
     if '9**9**9' in text and o.get('no_termination'):
         return 'D10'
